@@ -82,6 +82,22 @@ pub fn generate(rng: &mut Rng, thorough: bool, out: &mut Out) {
         let (q, r) = run_maps(u, 0, 10, 0.0, 1.0, 0.0, 1.0);
         out.case(q, r);
     }
+    // the extreme raw values against many ranges, including ranges whose `min + (max - min)` rounds
+    // above `max` in binary64 (a factor of exactly 1.0 would then leave the range)
+    let awkward: [(f64, f64); 6] = [(-0.1, 0.3), (0.3, 0.9), (-0.7, -0.1), (0.1, 0.7), (-1e-3, 7e-3), (1.1, 3.3)];
+    for &u in &[0xffffffffu32, 0xfffffffe, 0xffffff80, 0xffffff7f, 0xffffff00, 0, 1, 0xff, 0x100] {
+        for k in 0..(if thorough { 400 } else { 60 }) {
+            let (dmin, dmax) = if k < awkward.len() { awkward[k] } else {
+                let a = rng.uniform(-10.0, 10.0);
+                (a, a + rng.uniform(1e-3, 10.0))
+            };
+            let fmin = rng.uniform(-10.0, 10.0) as f32;
+            let fmax = fmin + rng.uniform(1e-3, 10.0) as f32;
+            let imin = rng.range(-1000, 1000) as i32;
+            let (q, r) = run_maps(u, imin, imin + rng.range(1, 1 << 20) as i32, fmin, fmax, dmin, dmax);
+            out.case(q, r);
+        }
+    }
     let n = if thorough { 400000 } else { 20000 };
     for i in 0..n {
         let u = raw(rng, i);
